@@ -51,6 +51,9 @@
 //!   setun <id> <v>                     untracked write (`update_untracked` / `write_untracked`) followed by an explicit
 //!                                      `notify()` through the handle or its MappedSignal wrapper: the same as `set`
 //!   wrap 6                             reads through `Signal<Option<T>>::from(Signal::from(node))`
+//!   memof <sig>                        `ArcMemo::from(ArcRwSignal / ArcReadSignal)` (arena signals are converted first): a memo with
+//!                                      body `R<sig>` whose closure the harness cannot instrument: its own runs are not listed
+//!                                      in `runs=` (both sides); its version for the justification oracle = value changes of <sig>
 //!   oncl                               every effect run registers one `on_cleanup` (C02 prints ` cl=<node>:<calls>,…`)
 //!   set <id> <v> | sset <slice> <v> | read <id> | poll <i> | idle
 //! <expr> prefix tokens: L<n> | R<id> (tracked read) | U<id> (read under untrack) |
@@ -277,6 +280,8 @@ pub struct Shared {
     pub dropped: Vec<usize>,
     /// `onclr`: the signal cleanup callbacks read
     pub onclr: Option<usize>,
+    /// `memof` nodes: the signal they mirror
+    pub from_of: Vec<Option<usize>>,
 }
 
 impl Shared {
@@ -307,6 +312,16 @@ impl Shared {
     }
     pub fn is_imm(&self, id: usize) -> bool {
         self.imm.get(id).copied().unwrap_or(false)
+    }
+    /// signal `id` goes from `old` to `new`: a `memof` node over it has a new version iff the value differs
+    fn note_write(&mut self, id: usize, old: i64, new: i64) {
+        if old != new {
+            for x in 0..self.from_of.len() {
+                if self.from_of[x] == Some(id) {
+                    self.ver[x] += 1;
+                }
+            }
+        }
     }
     fn fail(&mut self, msg: String) {
         self.bad.get_or_insert(msg);
@@ -826,6 +841,8 @@ fn interp_in(sh: &Sh, e: &Expr, in_unt: bool, node: usize, pos: &mut usize) -> i
             let (h, acc) = {
                 let mut g = sh.lock().unwrap();
                 if matches!(g.defs.get(*id), Some(Def::Sig(_))) {
+                    let old = g.env[*id];
+                    g.note_write(*id, old, v);
                     g.env[*id] = v;
                     g.ver[*id] += 1;
                 }
@@ -1173,6 +1190,7 @@ impl Case {
         g.slice.push(None);
         g.handler_read.push(None);
         g.cl_pending.push(vec![]);
+        g.from_of.push(None);
     }
 
     /// `sel K expr`: ids first..first+K-1 are the key nodes, first+K the selector node
@@ -1438,6 +1456,7 @@ impl Case {
         }
         match (&g.defs[x], &g.last[x]) {
             (Def::Sig(_), _) | (Def::Key(..), _) => false,
+            _ if g.from_of[x].is_some() => Self::depends_on(g, g.from_of[x].unwrap(), sig, depth - 1),
             (_, Some(r)) => r.treads.iter().any(|t| Self::depends_on(g, t.0, sig, depth - 1)),
             _ => false,
         }
@@ -1452,6 +1471,28 @@ impl Case {
                 slot.paused_at_runs = None;
             }
         }
+    }
+
+    /// `memof <sig>`
+    pub fn define_from(&mut self, sig: usize) -> bool {
+        let (h, id) = {
+            let g = self.sh.lock().unwrap();
+            if !matches!(g.defs.get(sig), Some(Def::Sig(_))) || g.is_field(sig) {
+                return false;
+            }
+            (g.handles[sig].clone(), g.defs.len())
+        };
+        let m = self.owner.with(|| match h {
+            Handle::ArcSig(x) => Some(ArcMemo::from(x)),
+            Handle::ArcSplit(r, _) => Some(ArcMemo::from(r)),
+            Handle::Sig(x) => Some(ArcMemo::from(ArcRwSignal::from(x))),
+            Handle::Split(r, _) => Some(ArcMemo::from(ArcReadSignal::from(r))),
+            _ => None,
+        });
+        let Some(m) = m else { return false };
+        self.push_entry(Def::Memo(Expr::Rd(true, sig)), Handle::ArcMemo(m), Reader::Direct, None, None);
+        self.sh.lock().unwrap().from_of[id] = Some(sig);
+        true
     }
 
     pub fn set_onclr(&mut self, s: usize) -> bool {
@@ -1473,6 +1514,8 @@ impl Case {
             if !matches!(g.defs.get(id), Some(Def::Sig(_))) {
                 return false;
             }
+            let old = g.env[id];
+            g.note_write(id, old, v);
             g.env[id] = v;
             g.ver[id] += 1;
             g.op_sites += 1;
@@ -1488,6 +1531,8 @@ impl Case {
             if !matches!(g.defs.get(id), Some(Def::Sig(_))) {
                 return false;
             }
+            let old = g.env[id];
+            g.note_write(id, old, v);
             g.env[id] = v;
             g.ver[id] += 1;
             g.op_sites += 1;
@@ -1574,10 +1619,13 @@ impl Case {
         fn cur(g: &Shared, id: usize) -> bool {
             match &g.defs[id] {
                 Def::Sig(_) | Def::Key(..) => true,
+                // a `memof` node cannot be observed running: it counts as current, its value is checked by the reads
+                _ if g.from_of[id].is_some() => true,
                 _ => match &g.last[id] {
                     None => false,
                     Some(r) => r.treads.iter().all(|(x, v, _)| match &g.defs[*x] {
                         Def::Sig(_) | Def::Key(..) => g.env[*x] == *v,
+                        _ if g.from_of[*x].is_some() => g.env[g.from_of[*x].unwrap()] == *v,
                         _ => cur(g, *x) && g.last[*x].as_ref().map(|r| r.result) == Some(*v),
                     }),
                 },
